@@ -720,3 +720,23 @@ package consensus
 //@   requires !isnil(l.StateElement)
 //@   let h = len(l.StateElement.MerkleProof)
 //@   ensures @membership-is-root-equality result <==> h < 64 && (acc.NumLeaves / pow2(h)) % 2 == 1 && acc.Trees[h] == mpath(l.hash(), l.StateElement.LeafIndex, l.StateElement.MerkleProof, h)
+
+// ------------------------------------------------------------ v1 signature hashes and validateSignatures (C10, C03)
+// PartialSigHash is documented to panic when cf references fields not present in txn: the range
+// condition is its precondition; every caller has to establish it.
+//@ spec idxInRange(xs []uint64, n int) bool = forall j in 0..len(xs) :: xs[j] < n
+//@ spec cfInRange(txn types.Transaction, cf types.CoveredFields) bool = idxInRange(cf.SiacoinInputs, len(txn.SiacoinInputs)) && idxInRange(cf.SiacoinOutputs, len(txn.SiacoinOutputs)) && idxInRange(cf.FileContracts, len(txn.FileContracts)) && idxInRange(cf.FileContractRevisions, len(txn.FileContractRevisions)) && idxInRange(cf.StorageProofs, len(txn.StorageProofs)) && idxInRange(cf.SiafundInputs, len(txn.SiafundInputs)) && idxInRange(cf.SiafundOutputs, len(txn.SiafundOutputs)) && idxInRange(cf.MinerFees, len(txn.MinerFees)) && idxInRange(cf.ArbitraryData, len(txn.ArbitraryData)) && idxInRange(cf.Signatures, len(txn.Signatures))
+
+//@ func (State).PartialSigHash
+//@   prop C10 C03
+//@   requires @covered-fields-in-range cfInRange(txn, cf)
+//@   requires s.Network != nil
+
+//@ func (State).WholeSigHash
+//@   prop C10 C03
+//@   requires @covered-signatures-in-range idxInRange(coveredSigs, len(txn.Signatures))
+//@   requires s.Network != nil
+
+//@ func validateSignatures
+//@   prop C10 C03
+//@   requires ms.base.Network != nil
